@@ -170,6 +170,9 @@ def check_C03(tier, seed):
     run_pipeline(res, binary, "sweep", gen_lines=gens.gen_c03_sweep(rng, 64 if q else 300), nshards=8 if q else 16)
     run_pipeline(res, binary, "extreme", gen_lines=gens.gen_c03_extreme(rng, 150 if q else 3000), nshards=4 if q else 16)
     run_pipeline(res, binary, "random", gen_lines=events_of(*(gens.gen_zone_session(rng, gens.gen_table_zone(rng, nmax=20), do_find=False) for _ in range(150 if q else 3000))), nshards=8 if q else 16)
+    if not q:
+        # algorithm layer: the binary search and the forward leap scan, as PlusCal shaped like the Rust, refine the declarative definitions
+        res.add_mc(run_mc("AlgoSearch", dict(MaxLen=4, MaxVal=6), invariants=("Refines",), workers=8, timeout=3000, extra_cfg="PROPERTY Terminates\n", xmx="8g"))
     res.notes["rule"] = "vectors: every zone of the scaled model (<= MaxTr transitions on 0..6, 5 type menus, 6 leap tables, rule none/fixed) x instants -7..14; events: table-length sweep 0..n with probes at every T-1/T/T+1, i64-extreme transition times, seeded random zones"
     return res.finish()
 
